@@ -24,7 +24,7 @@ REAL_VS_STUB = {"real": ["polyply.src.nonbond_engine.NonBondEngine (from_topolog
                          "topology is an object with .volumes/.bending only"]}
 PROBES = ["new_tree_opened", "tree_emptied", "concatenate_multi", "pair_across_boundary", "floor_hit",
           "remove_undefined", "remove_repeated", "multi_tree_state", "force_pairs", "whitebox_views",
-          "world_A_shadow_runs", "overlap_verdict_shadowed", "concatenate"]
+          "world_A_shadow_runs", "overlap_verdict_shadowed", "concatenate", "remove_given_as_iterator"]
 
 
 def n_runs(tier):
